@@ -220,7 +220,7 @@ def ocaml_build():
     return True, log
 
 
-DRIVERS = {'driver_store': (['m_storeq'], []), 'driver_engine': (['m_engine'], ['json', 'engine_io']), 'driver_model': (['m_engine'], ['json', 'engine_io']), 'driver_retry': (['m_retry'], []), 'driver_script': (['m_script'], ['json']), 'driver_chan': (['m_chan'], [])}
+DRIVERS = {'driver_store': (['m_storeq'], []), 'driver_engine': (['m_engine'], ['json', 'engine_io']), 'driver_model': (['m_engine'], ['json', 'engine_io']), 'driver_multi': (['m_multi'], []), 'driver_retry': (['m_retry'], []), 'driver_script': (['m_script'], ['json']), 'driver_chan': (['m_chan'], [])}
 
 
 def drivers():
